@@ -443,7 +443,9 @@ def r5(ctx):
     ok = len(ctors) == 1 and not ctors[0].keywords and len(ctors[0].args) == len(fields_of(tname))
     got = None
     if ok:
-      got = [binding(fn, a.id) if isinstance(a, ast.Name) else (None, None) for a in ctors[0].args]
+      # an argument is a local bound to a reader call, or the reader call itself (arguments are evaluated left to right)
+      got = [binding(fn, a.id) if isinstance(a, ast.Name) else ((call_attr(a), 0) if isinstance(a, ast.Call) and U(getattr(a.func, 'value', a)) == 'reader' else (None, None))
+             for a in ctors[0].args]
       ok = got == want
       if ok and tname == 'PartitionMetadata':
         # replicas before isr in read order and in the tuple
@@ -451,11 +453,14 @@ def r5(ctx):
         ln = dict((st.targets[0].id, st.lineno) for st in ast.walk(fn.node) if isinstance(st, ast.Assign) and isinstance(st.targets[0], ast.Name))
         ok = ln.get(a3, 0) < ln.get(a4, 0)
       if ok and tname in ('ProduceResponse', 'BrokerMetadata'):
-        ln = dict((st.targets[0].id, st.lineno) for st in ast.walk(fn.node) if isinstance(st, ast.Assign) and isinstance(st.targets[0], ast.Name))
+        ln = dict((st.targets[0].id, (st.lineno, -1)) for st in ast.walk(fn.node) if isinstance(st, ast.Assign) and isinstance(st.targets[0], ast.Name))
+
+        def at(a):
+          return ln.get(a.id, (0, 0)) if isinstance(a, ast.Name) else (a.lineno, a.col_offset)
         if tname == 'BrokerMetadata':
-          ok = ln.get(ctors[0].args[0].id, 0) < ln.get(ctors[0].args[2].id, 0)
+          ok = at(ctors[0].args[0]) < at(ctors[0].args[2])
         else:
-          ok = ln.get(ctors[0].args[1].id, 0) < ln.get(ctors[0].args[2].id, 0) < ln.get(ctors[0].args[3].id, 0)
+          ok = at(ctors[0].args[1]) < at(ctors[0].args[2]) < at(ctors[0].args[3])
     ctx.ob('C15.R5', fn, '%s fields in declared order' % tname, ok, 'constructed from %s' % got, why)
   # produce request constants: acks, timeout, one topic, one partition
   ws = [c for c in walk_no_nested(h.node) if isinstance(c, ast.Call) and call_attr(c) == 'WriteStruct' and U(c.args[0]).endswith('PRODUCE_HEADER')]
